@@ -17,9 +17,9 @@ Raw(k) == [t |-> "raw", k |-> k]                      \* the Ed25519-extended si
 Normal(i) == [t |-> "normal", i |-> i]                \* plain Ed25519 signing key from seed #i
 PubOf(s) == [t |-> "pubof", s |-> s]                  \* Ed25519 public key of a signing key
 Sig(s, m) == [t |-> "sig", s |-> s, m |-> m]
-Kind(x) == CASE x.t \in {"root", "der"} -> "xprv" [] x.t = "pub" -> "xpub" [] x.t \in {"raw", "normal"} -> "sk"
+Kind(x) == CASE x.t \in {"root", "der", "imp"} -> "xprv" [] x.t = "pub" -> "xpub" [] x.t \in {"raw", "normal"} -> "sk"
              [] x.t = "pubof" -> "pk" [] x.t = "sig" -> "sig" [] OTHER -> "none"
-ByteLen(x) == CASE x.t \in {"root", "der"} -> 96 [] x.t = "pub" -> 64 [] x.t = "raw" -> 64 [] x.t = "normal" -> 32 [] x.t = "pubof" -> 32 [] x.t = "sig" -> 64 [] OTHER -> 0
+ByteLen(x) == CASE x.t \in {"root", "der", "imp"} -> 96 [] x.t = "pub" -> 64 [] x.t = "raw" -> 64 [] x.t = "normal" -> 32 [] x.t = "pubof" -> 32 [] x.t = "sig" -> 64 [] OTHER -> 0
 Ix(ix) == [hard |-> ix.hard, n |-> ix.n]
 \* the term (in normal form) an operation yields on an operand term; ERR where the operation has to be refused
 Apply(op, a) ==
@@ -27,7 +27,7 @@ Apply(op, a) ==
     [] op.op = "normal" -> Normal(op.i)
     \* an extended private key IMPORTED from bytes (a key some other wallet made): the bytes of key a with one bit pattern or-ed in.
     \* For the algebra it is just another root; the laws must hold for it as for keys the library generated itself.
-    [] op.op = "tweak" -> IF Kind(a) = "xprv" THEN Root(<<"imported", a, op.byte, op.mask>>) ELSE ERR
+    [] op.op = "tweak" -> IF Kind(a) = "xprv" THEN [t |-> "imp", of |-> a, byte |-> op.byte, mask |-> op.mask] ELSE ERR
     [] op.op = "derive" -> IF Kind(a) = "xprv" THEN Der(a, Ix(op.ix)) ELSE ERR
     [] op.op = "pub" -> IF Kind(a) = "xprv" THEN Pub(a) ELSE ERR
     [] op.op = "dpub" -> IF Kind(a) # "xpub" \/ op.ix.hard THEN ERR ELSE Pub(Der(a.k, Ix(op.ix)))      \* soft derivation commutes with to_public
